@@ -99,6 +99,10 @@ def run(chk, which="C16"):
                      ("maker*C", f"vfy::reify_wrapped_unit(TAG, au::{units[oname].maker} * {cexpr});", "O*C"),
                      ("C*mag", f"vfy::reify_wrapped_unit(TAG, {cexpr} * au::mag<5280>());", "C*5280"), ("C/mag", f"vfy::reify_wrapped_unit(TAG, {cexpr} / au::mag<7>());", "C/7"),
                      ("pow<2>(C)", f"vfy::reify_wrapped_unit(TAG, pow<2>({cexpr}));", "C^2")]
+            if T in ("double", "float"):
+                # constant divided by a floating number / quantity: the stored number is the raw reciprocal in the same rep
+                forms += [("C/q", f"vfy::reify_composed(TAG, {cexpr} / au::{units[oname].maker}({x}), ({T})1 / ({T}){x});", "C/O"),
+                          ("C/num", f"vfy::reify_composed(TAG, {cexpr} / {x}, ({T})1 / ({T}){x});", "C")]
             for fname, code, unit_model in forms:
                 tag = f"x{ti}_{j}_{fname}"
                 entries[tag] = {"comp": fname, "c": cname, "cexpr": cexpr, "other": oname, "unit_model": unit_model}
